@@ -5,9 +5,9 @@ tests/web/test_mustache.cpp).
      partials incl. recursive / malformed / multi-line ones); spec/extra/MustacheOps.tla is a mustache EVALUATOR in TLA+
      (tokenizer errors, standalone lines, balance, name resolution over the context stack, truthiness, escaping, partials with
      indentation and laziness, depth limit).  spec/extra/Mustache.tla is the generator: its states are ALL templates of up
-     to MaxLen lexemes per alphabet (hopeless prefixes are cases but are not extended), plus TLC simulation walks for long
-     standalone / partial layouts.  Invariants: BalanceAgrees (balance by reduction = the evaluator's stack scan),
-     the laws LiteralCopied / ErrorIsClean asserted by Emit2, and Refines for each Dev_* flag (self-test: TLC must report the slip).
+     to MaxLen lexemes per family (hopeless prefixes are cases but are not extended), plus TLC simulation walks for long
+     standalone / partial layouts.  Invariants: BalanceAgrees (balance by reduction = the evaluator's stack scan), the laws
+     LiteralCopied / ErrorIsClean asserted by Emit2, and Refines under each deviation (self-test: TLC must report the slip).
   2. every state is a case: harness/drv_mustache.cpp (ASan+UBSan, template on an exact-size heap block) renders it twice with
      the real engine against the same data / partials (built from the tables TLC prints) and records outcome, text, the
      partial names asked of the resolver, mutation of the data.
@@ -15,7 +15,6 @@ tests/web/test_mustache.cpp).
      MustacheOps!Eval and checks that the template text is the text of its lexemes.
 """
 import os, re, json, concurrent.futures as cf
-from collections import Counter
 import vf
 from checks import xtext_common as xc
 
@@ -23,8 +22,10 @@ SPECDIR = xc.SPECDIR
 DEVS = ["Dev_NoEscape", "Dev_EscapeRaw", "Dev_ZeroFalsy", "Dev_EmptyArrayTruthy", "Dev_NoStandalone", "Dev_NoIndent", "Dev_DepthOffByOne",
         "Dev_CloseNotChecked", "Dev_InnermostOnly", "Dev_PartialEager"]
 INVS = ["Refines", "BalanceAgrees"]
+# the evaluator recurses as deep as the templates nest: large thread stacks
 JVM = {"JAVA_TOOL_OPTIONS": "-Xss256m -Xmx4g -DTLA-Library=%s" % os.pathsep.join([os.path.join(vf.SPEC, "common"), SPECDIR])}
-# name, alphabet, resolvers, MaxLen quick, MaxLen thorough
+JVMV = {"JAVA_TOOL_OPTIONS": JVM["JAVA_TOOL_OPTIONS"] + " -Dtlc2.tool.queue.IStateQueue=StateDeque"}
+# family name, alphabet, resolvers, MaxLen quick, MaxLen thorough
 CONFIGS = [
     ("interp", ["X", "Y", "Vs", "Vsp", "Vq", "Vk", "Vos", "Voz", "Vso", "Vozs", "Vzz", "Vdot", "Vi", "Vm", "Vd", "Vg", "Vt", "Vf", "Vn", "Ve", "Va",
                 "Vo", "Vnil", "Rq", "Rqsp", "Aq", "Aqsp", "Rdot", "Ri", "RB", "LB"], [True], 2, 3),
@@ -40,21 +41,54 @@ CONFIGS = [
     ("errors", ["B1", "B2", "B3", "B4", "SD", "X", "Vs", "Oo", "Co", "RB", "LB", "K4", "Rq"], [True], 3, 4),
     ("depth", ["D99", "D100", "D101", "Of", "Cf", "Ot", "Ct", "Pdp", "Pd99", "X", "If"], [True], 3, 4),
 ]
-NOERR = ("interp", "comments")
+NOERR = ("interp", "comments")       # families without any structural lexeme: no error case expected
 SIM = ("layout", ["SP", "W2", "NL", "CRNL", "X", "Oo", "Co", "K1", "K3", "Vs", "Pp", "Pm", "Pmm", "Psec", "Pout", "Ia", "Ca", "Ot", "Ct"], [True], 10)
-DEV_ALPHABET = ["Vq", "Rq", "Oi", "Ci", "X", "Iz", "Cz", "Oo", "Co", "NL", "W2", "Pm", "D100", "Ca", "Vk", "Of", "Pno", "Cf"]
 
 
-def mc(ck, name, families, dev=None, emit=True):
-    """families: list of (name, alphabet, resolvers, maxlen)"""
+def mc(ck, name, families, emit=True, tables=False, devinv=False, flag=None):
+    """generated MC module + cfg; families: list of (name, alphabet, resolvers, maxlen)"""
     fams = ", ".join("%s |-> [a |-> %s, n |-> %d, r |-> %s]" % (n, vf.tla(set(a)), m, vf.tla(set(r))) for n, a, r, m in families)
-    mod = xc.write_mc(ck, "MCM_" + name, "Mustache", ["MCFamilies == [%s]" % fams])
+    defs = ["MCFamilies == [%s]" % fams]
+    if tables:
+        defs.append("ASSUME PrintT(ToJson(Tables))")
+    invs = INVS + (["Emit2"] if emit else [])
+    if devinv:
+        # Refines under each single deviation as separate invariants: ONE TLC run (-continue) shows all of them violated
+        for d in DEVS:
+            defs.append('Inv_%s == Eval(lex, res, {"%s"}) = Eval(lex, res, {})' % (d, d[4:]))
+        invs = ["Inv_" + d for d in DEVS]
+    mod = xc.write_mc(ck, "MCM_" + name, "Mustache", defs)
     cfg = os.path.join(ck.work, "MCM_%s.cfg" % name)
     c = {"Families": "<- MCFamilies", "MaxHeavy": 1}
     for d in DEVS:
-        c[d] = (d == dev)
-    vf.write_cfg(cfg, constants=c, invariants=INVS + (["Emit2"] if emit else []))
+        c[d] = (d == flag)
+    vf.write_cfg(cfg, constants=c, invariants=invs)
     return mod, cfg
+
+
+def dev_selftest(ck):
+    """every deviation must make TLC report a violation of Refines on a small family that contains a witness for each
+    (one TLC run with -continue and coverage, which also shows that the generator's action is taken: the invariant
+    Inv_Dev_X is Refines with F = {X}).  The thorough tier additionally sets each CONSTANT Dev_* flag TRUE in its own run."""
+    mod, cfg = mc(ck, "dev", [("devA", ["Vq", "Rq", "D100", "Pm", "W2"], [True], 2),
+                              ("devB", ["Oi", "Ci", "X", "Iz", "Cz", "Oo", "Co", "NL", "Ca", "Vk", "Of", "Pno", "Cf"], [True], 3)], devinv=True)
+    r = vf.run_tlc(mod, cfg, tag="X17_dev", workers=1, timeout=900, lib_dirs=[SPECDIR], env=JVM, coverage=True, extra=["-continue"])
+    hit = set(re.findall(r"Invariant Inv_(Dev_\w+) is violated", r.out))
+    if hit != set(DEVS):
+        raise vf.Infra("self-test: deviations not caught by TLC: %s (%s)" % (sorted(set(DEVS) - hit), (r.out or "")[-600:]))
+    if r.coverage.get("Next", (0, 0))[1] == 0:
+        raise vf.Infra("self-test: action Next of Mustache.tla never taken")
+    xc.account(ck, r, "Mustache.")
+    if ck.tier == "thorough":
+        fams = [("devA", ["Vq", "Rq", "D100", "Pm", "W2"], [True], 2),
+                ("devB", ["Oi", "Ci", "X", "Iz", "Cz", "Oo", "Co", "NL", "Ca", "Vk", "Of", "Pno", "Cf"], [True], 3)]
+        jobs = []
+        for d in DEVS:
+            m2, c2 = mc(ck, "flag_" + d, fams, emit=False, flag=d)
+            jobs.append((d, m2, c2, ("Refines",)))
+        xc.dev_selftests(ck, jobs, parallel=2, env=JVM)
+    return "each of %d deviations makes TLC report a violation of Refines (%s); %d states, action Next taken %d times" % (
+        len(DEVS), ", ".join(DEVS), r.distinct, r.coverage["Next"][1])
 
 
 def plain_json(v):
@@ -88,19 +122,8 @@ def walk_strings(v):
             yield from walk_strings(x)
 
 
-def tables(ck):
-    """let TLC print the vocabulary of MustacheData once; cross-check its internal consistency (set-up, infrastructure only)"""
-    mod = xc.write_mc(ck, "MCM_tables", "Mustache", ["MCFamilies == [none |-> [a |-> {}, n |-> 0, r |-> {TRUE}]]", "ASSUME PrintT(ToJson(Tables))"])
-    cfg = os.path.join(ck.work, "MCM_tables.cfg")
-    c = {"Families": "<- MCFamilies", "MaxHeavy": 1}
-    for d in DEVS:
-        c[d] = False
-    vf.write_cfg(cfg, constants=c, invariants=[])
-    r = vf.run_tlc(mod, cfg, tag="X17_tables", workers=1, timeout=300, lib_dirs=[SPECDIR], env=JVM)
-    vals = xc.tlc_json_prints(r)
-    if r.error or not vals:
-        raise vf.Infra("TLC could not print the tables of MustacheData: %s" % (r.error or r.out[-800:]))
-    t = vals[0]
+def check_tables(t):
+    """cross-check the internal consistency of the vocabulary TLC printed (set-up, infrastructure only)"""
     for s in walk_strings(t["data"]):
         if s["esc"] != esc5(s["v"]):
             raise vf.Infra("MustacheData: escaped form of %r is %r, expected %r" % (s["v"], s["esc"], esc5(s["v"])))
@@ -126,19 +149,42 @@ def tables(ck):
             ok = False
         if not ok:
             raise vf.Infra("MustacheData: lexeme %s (%s) has text %r inconsistent with its kind / name %r" % (name, k, txt, nm))
-    return t
+
+
+def write_setup(ck, t):
+    setup = os.path.join(ck.work, "setup.txt")
+    with open(setup, "w") as f:
+        f.write("D %s\n" % plain_json(t["data"]).encode().hex())
+        for name, text in t["partials"].items():
+            f.write("P %s %s\n" % (name, text.encode().hex() or "-"))
+    return setup
 
 
 def generate(ck, thorough):
     fams = [(n, a, r, th if thorough else q) for n, a, r, q, th in CONFIGS]
-    mod, cfg = mc(ck, "gen", fams)
+    mod, cfg = mc(ck, "gen", fams, tables=True)
     r = vf.run_tlc(mod, cfg, tag="X17_gen", workers=4, timeout=2400, lib_dirs=[SPECDIR], env=JVM)
     if r.error:
         raise vf.Infra("TLC failed on Mustache.tla: %s" % r.error)
-    cases = xc.tlc_json_prints(r)
+    prints = xc.tlc_json_prints(r)
+    tabs = [p for p in prints if "lexemes" in p]
+    if not tabs:
+        raise vf.Infra("TLC did not print the tables of MustacheData")
+    check_tables(tabs[0])
+    cases = [p for p in prints if "lexemes" not in p]
     if not r.violated and (len(cases) > r.distinct or len(cases) < r.distinct // 20):
         raise vf.Infra("generator: %d case lines for %d states" % (len(cases), r.distinct))
-    return r, cases, {n: m for n, a, rr, m in fams}
+    return r, cases, {n: m for n, a, rr, m in fams}, tabs[0]
+
+
+def with_jvm(fn):
+    """run fn with vf.validate_trace using the deep-recursion JVM options"""
+    old = vf.validate_trace
+    vf.validate_trace = lambda m, c, tr, **kw: old(m, c, tr, **dict(kw, env=JVMV))
+    try:
+        return fn()
+    finally:
+        vf.validate_trace = old
 
 
 def drive_and_judge(ck, tag, lines_in, setup):
@@ -146,9 +192,7 @@ def drive_and_judge(ck, tag, lines_in, setup):
     op = os.path.join(ck.work, tag + ".ndjson")
     open(cp, "w").write("\n".join(lines_in) + "\n")
     n, crashed, hung = xc.run_drv("drv_mustache.asan", cp, op, batch=400, parallel=8, extra=[setup])
-    # the evaluator recurses as deep as the templates nest: validation needs the large thread stack as well
-    os.environ["JAVA_TOOL_OPTIONS_X17"] = "1"
-    lines, bad, obs = validate(ck, op)
+    lines, bad, obs = with_jvm(lambda: xc.validate_sharded(ck, "MustacheTrace", op, nshards=4))
     if len(lines) != len(lines_in):
         raise vf.Infra("drv_mustache: %d events for %d cases" % (len(lines), len(lines_in)))
     ck.evaluations += len(lines)
@@ -159,54 +203,27 @@ def drive_and_judge(ck, tag, lines_in, setup):
     return lines, bad
 
 
-def validate(ck, op, nshards=5):
-    """xc.validate_sharded with the deep-recursion JVM options"""
-    old = vf.validate_trace
-
-    def vt(module_path, cfg_path, trace_path, **kw):
-        env = dict(JVM)
-        env["JAVA_TOOL_OPTIONS"] += " -Dtlc2.tool.queue.IStateQueue=StateDeque"
-        kw["env"] = env
-        return old(module_path, cfg_path, trace_path, **kw)
-    vf.validate_trace = vt
-    try:
-        return xc.validate_sharded(ck, "MustacheTrace", op, nshards=nshards)
-    finally:
-        vf.validate_trace = old
-
-
 def run(ck):
     thorough = ck.tier == "thorough"
     ck.make("drv_mustache.asan")
-    ck.rule = ("cases = ALL states of Mustache.tla per lexeme alphabet (interpolation, sections, truthiness, inverted, dotted names, standalone "
+    ck.rule = ("cases = ALL states of Mustache.tla per lexeme family (interpolation, sections, truthiness, inverted, dotted names, standalone "
                "lines, comments, partials with and without resolver, tokenizer errors, nesting depth 99/100/101): every lexeme sequence up to "
-               "MaxLen (quick 2-4, thorough 3-5; a hopeless prefix is a case but is not extended) + TLC simulation walks of 10 lexemes over the "
-               "layout alphabet; expected outcome / text / resolver calls by MustacheOps!Eval. Non-trivial = the template contains a tag")
-    t = tables(ck)
-    lexemes = t["lexemes"]
-    setup = os.path.join(ck.work, "setup.txt")
-    with open(setup, "w") as f:
-        f.write("D %s\n" % plain_json(t["data"]).encode().hex())
-        for name, text in t["partials"].items():
-            f.write("P %s %s\n" % (name, text.encode().hex() or "-"))
-    # coverage run (small): the generator's action is taken, no invariant fails
-    covex = cf.ThreadPoolExecutor(max_workers=1)
-    covf = covex.submit(xc.run_gen, ck, os.path.join(SPECDIR, "MCMustache.tla"), os.path.join(SPECDIR, "MCMustache.cfg"), "cov", "Mustache.", ["Emit"],
-                        1, 900, True, "generator / evaluator", JVM)
-    dev_jobs = []
-    for d in DEVS:
-        mod, cfg = mc(ck, "dev_" + d, [("dev", DEV_ALPHABET, [True], 3)], dev=d, emit=False)
-        dev_jobs.append((d, mod, cfg, ("Refines",)))
-    devs = xc.dev_selftests_start(ck, dev_jobs, parallel=2, env=JVM)
-    r, allcases, maxlens = generate(ck, thorough)
+               "MaxLen (quick 2-4, thorough 3-5; a hopeless prefix is a case but is not extended; merely unclosed templates only up to 2 "
+               "lexemes) + TLC simulation walks of 10 lexemes over the layout alphabet; expected outcome / text / resolver calls by "
+               "MustacheOps!Eval. Non-trivial = the template contains a tag")
+    bg = cf.ThreadPoolExecutor(max_workers=1)
+    devf = bg.submit(dev_selftest, ck)
+    r, allcases, maxlens, t = generate(ck, thorough)
     if r.violated:
         rp = ck.save_replay("impl_spec", {"tlc.out": r.out[-30000:]})
         ck.violation("Mustache.tla violates its invariant %s" % r.violated, rp)
-        xc.dev_selftests_join(ck, devs)
+        ck.note("self-test: " + devf.result())
         return
+    lexemes = t["lexemes"]
+    setup = write_setup(ck, t)
     ck.states += r.distinct
     ck.transitions += r.generated
-    r0summary = r.summary()
+    gen_summary = r.summary()
     cases, stats, seen = [], {}, set()
     for name, alphabet, resolvers, q, th in CONFIGS:
         cs = [c for c in allcases if c["fam"] == name]
@@ -219,7 +236,6 @@ def run(ck):
         stats[name] = (len(cs), nerr, maxlens[name])
         ck.cov["Emit[%s]" % name] = len(cs)
         for c in cs:
-            c["cfg"] = name
             key = (tuple(c["lex"]), c["res"])
             if key not in seen:
                 seen.add(key)
@@ -231,18 +247,22 @@ def run(ck):
                    simulate="num=%d" % (1500 if thorough else 300), depth=depth + 1, seed=ck.seed)
     if r.error or r.violated:
         raise vf.Infra("TLC simulation on Mustache.tla failed: %s %s" % (r.violated, (r.error or "")[-600:]))
+    sims = sorted(xc.tlc_json_prints(r), key=lambda c: (c["lex"], c["res"]))
+    ck.rng.shuffle(sims)
     nsim = 0
-    for c in xc.tlc_json_prints(r):
+    for c in sims:
+        if nsim >= (12000 if thorough else 2500):
+            break
         key = (tuple(c["lex"]), c["res"])
         if key not in seen:
             seen.add(key)
-            c["cfg"] = name
             cases.append(c)
             nsim += 1
     if nsim < 50:
         raise vf.Infra("simulation produced only %d new templates" % nsim)
-    stats[name] = (nsim, sum(1 for c in cases if c["cfg"] == name and c["err"]), depth)
-    ck.note("Mustache.tla: %s; %d distinct templates; per family (cases, errors, MaxLen): %s" % (r0summary, len(cases), stats))
+    stats[name] = (nsim, sum(1 for c in cases if c["fam"] == name and c["err"]), depth)
+    ck.note("Mustache.tla: %s; %d distinct templates; per family (cases, errors, MaxLen): %s" % (gen_summary, len(cases), stats))
+    ck.rng.shuffle(cases)        # spreads the expensive (deep / recursive) templates over the validation shards
 
     def text_of(c):
         return "".join(lexemes[x]["txt"] for x in c["lex"])
@@ -260,13 +280,13 @@ def run(ck):
         ck.note("model drift: %d events accepted by the oracle differ from the generator's prediction" % drift)
     ck.nontrivial = len({text_of(c) for c in cases if any(lexemes[x]["k"] not in ("text", "ws", "nl") for x in c["lex"])})
     ck.exhaustive = True
-    ck.assumptions.append("bounds: templates of up to MaxLen lexemes per alphabet over the fixed vocabulary / data context / partial table of "
+    ck.assumptions.append("bounds: templates of up to MaxLen lexemes per family over the fixed vocabulary / data context / partial table of "
                           "MustacheData.tla; lambdas and set-delimiters are not part of this engine")
-    for pick in (lambda c: c["cfg"] == "layout" and not c["err"] and c["calls"], lambda c: c["cfg"] == "sections" and not c["err"] and len(c["out"]) > 3,
-                 lambda c: c["cfg"] == "depth" and c["err"] and "D100" in c["lex"], lambda c: c["cfg"] == "partials" and c["err"] and c["calls"]):
+    for pick in (lambda c: c["fam"] == "layout" and not c["err"] and c["calls"], lambda c: c["fam"] == "sections" and not c["err"] and len(c["out"]) > 3,
+                 lambda c: c["fam"] == "depth" and c["err"] and "D100" in c["lex"], lambda c: c["fam"] == "partials" and c["err"] and c["calls"]):
         for c in cases:
             if pick(c):
-                ck.sample({"alphabet": c["cfg"], "template": text_of(c)[:160], "error": c["err"], "out": c["out"][:120], "resolver calls": c["calls"][:6]})
+                ck.sample({"family": c["fam"], "template": text_of(c)[:160], "error": c["err"], "out": c["out"][:120], "resolver calls": c["calls"][:6]})
                 break
 
     # oracle self-test on synthesised events
@@ -286,25 +306,19 @@ def run(ck):
                ev(["Pdp"], True, "x", ["dp"]), ev(["Oo", "Vk", "Co"], True, ""), ev(["Oo", "Vt", "Co"], True, "true"), ev(["B1"], True, "{{s"),
                ev(["Vs"], True, "S", mut=True), ev(["Vs"], True, "S", again=False), ev(["Vs"], False, "", exc="other"),
                ev(["Vs"], True, "S", tmpl="{{k}}"), ev(["Prec"], True, "x" * 101, ["rec"] * 101), dict(e="Crashed", k=1)]
-    old = vf.validate_trace
-    vf.validate_trace = lambda m, c, tr, **kw: old(m, c, tr, **dict(kw, env=dict(JVM, JAVA_TOOL_OPTIONS=JVM["JAVA_TOOL_OPTIONS"] + " -Dtlc2.tool.queue.IStateQueue=StateDeque")))
-    try:
-        xc.selftest_oracle(ck, "MustacheTrace", good, corrupt)
-    finally:
-        vf.validate_trace = old
-    xc.dev_selftests_join(ck, devs)
-    covf.result()
-    covex.shutdown()
+    with_jvm(lambda: xc.selftest_oracle(ck, "MustacheTrace", good, corrupt))
+    ck.note("self-test: " + devf.result())
+    bg.shutdown()
 
 
 def replay(ck, path):
     ck.make("drv_mustache.asan")
-    t = tables(ck)
-    setup = os.path.join(ck.work, "setup.txt")
-    with open(setup, "w") as f:
-        f.write("D %s\n" % plain_json(t["data"]).encode().hex())
-        for name, text in t["partials"].items():
-            f.write("P %s %s\n" % (name, text.encode().hex() or "-"))
+    mod, cfg = mc(ck, "tables", [("none", [], [True], 0)], emit=False, tables=True)
+    r = vf.run_tlc(mod, cfg, tag="X17_tables", workers=1, timeout=300, lib_dirs=[SPECDIR], env=JVM)
+    tabs = [p for p in xc.tlc_json_prints(r) if "lexemes" in p]
+    if not tabs:
+        raise vf.Infra("TLC did not print the tables of MustacheData: " + (r.error or "")[-500:])
+    setup = write_setup(ck, tabs[0])
     lines_in = [ln.strip() for ln in open(os.path.join(path, "cases.txt")) if ln.strip()]
     lines, bad = drive_and_judge(ck, "replay", lines_in, setup)
     print("\n".join(lines[:50]))
